@@ -12,6 +12,7 @@ import (
 	ch "github.com/ClickHouse/ch-go"
 	"github.com/ClickHouse/ch-go/proto"
 
+	"verif/checks/seq/reg"
 	"verif/refcol"
 	"verif/refwire"
 	"verif/vk"
@@ -51,8 +52,10 @@ var alphabet = []pk{
 	{sym: "Z", kind: "eos"},
 }
 
-func (p pk) bytes(w Wire) []byte {
-	cols := func() []refcol.BlockCol {
+// cols renders the rows of a data packet in one of two schemas: (v UInt64, s String) or
+// (lc LowCardinality(String), a Array(UInt64), nn Nullable(String)).
+func (p pk) cols(schema int) []refcol.BlockCol {
+	if schema == 0 {
 		v, s := Col("v", "UInt64"), Col("s", "String")
 		for _, r := range p.rows {
 			var n uint64
@@ -62,6 +65,40 @@ func (p pk) bytes(w Wire) []byte {
 		}
 		return []refcol.BlockCol{v, s}
 	}
+	lc, a, nn := Col("lc", "LowCardinality(String)"), Col("a", "Array(UInt64)"), Col("nn", "Nullable(String)")
+	for _, r := range p.rows {
+		var n uint64
+		fmt.Sscan(r[0], &n)
+		lc.Vals = append(lc.Vals, S(r[1]))
+		arr := []any{}
+		for k := uint64(0); k < n%3; k++ {
+			arr = append(arr, U64(n+k))
+		}
+		a.Vals = append(a.Vals, arr)
+		if n%2 == 1 {
+			nn.Vals = append(nn.Vals, nil)
+		} else {
+			nn.Vals = append(nn.Vals, S(r[1]))
+		}
+	}
+	return []refcol.BlockCol{lc, a, nn}
+}
+
+// rowStrings shows the rows of a column set, one string per row.
+func rowStrings(cols []refcol.BlockCol, rows int) []string {
+	out := make([]string, rows)
+	for i := range out {
+		var parts []string
+		for _, c := range cols {
+			parts = append(parts, refcol.Show(c.Vals[i]))
+		}
+		out[i] = strings.Join(parts, ":")
+	}
+	return out
+}
+
+func (p pk) bytes(w Wire, schema int) []byte {
+	cols := func() []refcol.BlockCol { return p.cols(schema) }
 	switch p.kind {
 	case "data":
 		return w.Data(len(p.rows), cols()...)
@@ -100,6 +137,7 @@ type c03case struct {
 	binding string // typed auto none
 	rev     int
 	cb      cbSet
+	schema  int
 }
 
 func (k c03case) id() string {
@@ -107,7 +145,7 @@ func (k c03case) id() string {
 	for _, p := range k.script {
 		syms = append(syms, p.sym)
 	}
-	return fmt.Sprintf("%s/lz4=%v/%s/rev=%d/cb=%s/fail=%s", strings.Join(syms, "."), k.lz4, k.binding, k.rev, k.cb.have, k.cb.fail)
+	return fmt.Sprintf("%s/lz4=%v/%s/rev=%d/cb=%s/fail=%s/schema=%d", strings.Join(syms, "."), k.lz4, k.binding, k.rev, k.cb.have, k.cb.fail, k.schema)
 }
 
 // expected runs the reference interpreter of the receive loop's specified behaviour.
@@ -123,12 +161,11 @@ func (k c03case) expected() (trace []string, result string) {
 			}
 			if has("R") {
 				rows := []string{}
+				pc := p.cols(k.schema)
 				if k.binding != "none" {
-					for _, r := range p.rows {
-						rows = append(rows, r[0]+":"+r[1])
-					}
+					rows = rowStrings(pc, len(p.rows))
 				}
-				trace = append(trace, fmt.Sprintf("result(%d cols,%d rows)[%s]", 2, len(p.rows), strings.Join(rows, ",")))
+				trace = append(trace, fmt.Sprintf("result(%d cols,%d rows)[%s]", len(pc), len(p.rows), strings.Join(rows, ",")))
 				if fails("R") {
 					return trace, "error"
 				}
@@ -226,15 +263,50 @@ func body03seg(k c03case, sg seg, prop string) Body {
 		}
 		defer vsched.Quiet(func() { _ = c.C.Close() })
 		var trace []string
-		var cv proto.ColUInt64
-		var cs proto.ColStr
+		var typed proto.Results
+		if k.schema == 0 {
+			typed = proto.Results{{Name: "v", Data: new(proto.ColUInt64)}, {Name: "s", Data: new(proto.ColStr)}}
+		} else {
+			typed = proto.Results{{Name: "lc", Data: proto.NewLowCardinality[string](new(proto.ColStr))}, {Name: "a", Data: proto.NewArray[uint64](new(proto.ColUInt64))},
+				{Name: "nn", Data: proto.NewColNullable[string](new(proto.ColStr))}}
+		}
 		var auto proto.Results
-		q := ch.Query{Body: "SELECT v, s FROM t", QueryID: "q3"}
+		q := ch.Query{Body: "SELECT * FROM t", QueryID: "q3"}
 		switch k.binding {
 		case "typed":
-			q.Result = proto.Results{{Name: "v", Data: &cv}, {Name: "s", Data: &cs}}
+			q.Result = typed
 		case "auto":
 			q.Result = auto.Auto()
+		}
+		// readBound renders the rows the bound columns hold right now (canonical wire form)
+		readBound := func(res proto.Results, b proto.Block) []string {
+			want := alphabet[0].cols(k.schema)
+			if len(res) != len(want) {
+				return []string{fmt.Sprintf("BOUND-COLUMNS %d", len(res))}
+			}
+			var bc []refcol.BlockCol
+			for i, r := range res {
+				if r.Name != want[i].Name {
+					return []string{"BOUND-NAMES " + r.Name}
+				}
+				col, ok := r.Data.(proto.Column)
+				if !ok {
+					return []string{fmt.Sprintf("BOUND-TYPE %T", r.Data)}
+				}
+				w, err := reg.Wrap(col, r.Name)
+				if err != nil {
+					return []string{"BOUND-WRAP " + err.Error()}
+				}
+				if col.Rows() != b.Rows {
+					return []string{fmt.Sprintf("ROWS-MISMATCH %s=%d block=%d", r.Name, col.Rows(), b.Rows)}
+				}
+				c := refcol.BlockCol{Name: r.Name}
+				for j := 0; j < col.Rows(); j++ {
+					c.Vals = append(c.Vals, w.Canon(w.Row(j)))
+				}
+				bc = append(bc, c)
+			}
+			return rowStrings(bc, b.Rows)
 		}
 		has := func(s string) bool { return strings.Contains(k.cb.have, s) }
 		fail := func(s string) error {
@@ -248,29 +320,9 @@ func body03seg(k c03case, sg seg, prop string) Body {
 				var rows []string
 				switch k.binding {
 				case "typed":
-					for i := 0; i < cv.Rows(); i++ {
-						rows = append(rows, fmt.Sprintf("%d:%s", cv.Row(i), cs.Row(i)))
-					}
-					if cv.Rows() != cs.Rows() || cv.Rows() != b.Rows {
-						rows = append(rows, fmt.Sprintf("ROWS-MISMATCH v=%d s=%d block=%d", cv.Rows(), cs.Rows(), b.Rows))
-					}
+					rows = readBound(typed, b)
 				case "auto":
-					if len(auto) == 2 {
-						a, okA := auto[0].Data.(*proto.ColUInt64)
-						bb, okB := auto[1].Data.(*proto.ColStr)
-						if okA && okB {
-							for i := 0; i < a.Rows(); i++ {
-								rows = append(rows, fmt.Sprintf("%d:%s", a.Row(i), bb.Row(i)))
-							}
-						} else {
-							rows = append(rows, fmt.Sprintf("AUTO-TYPES %T %T", auto[0].Data, auto[1].Data))
-						}
-						if auto[0].Name != "v" || auto[1].Name != "s" {
-							rows = append(rows, "AUTO-NAMES "+auto[0].Name+","+auto[1].Name)
-						}
-					} else {
-						rows = append(rows, fmt.Sprintf("AUTO-COLUMNS %d", len(auto)))
-					}
+					rows = readBound(auto, b)
 				}
 				trace = append(trace, fmt.Sprintf("result(%d cols,%d rows)[%s]", b.Columns, b.Rows, strings.Join(rows, ",")))
 				return fail("R")
@@ -323,17 +375,17 @@ func body03seg(k c03case, sg seg, prop string) Body {
 		steps := []Step{{Name: "await-query", AwaitN: 2}}
 		if sg.gaps {
 			for _, p := range k.script {
-				steps = append(steps, Step{Name: "gap", Gap: ch.DefaultReadTimeout + 500*time.Millisecond}, Step{Name: p.sym, Send: p.bytes(c.W)})
+				steps = append(steps, Step{Name: "gap", Gap: ch.DefaultReadTimeout + 500*time.Millisecond}, Step{Name: p.sym, Send: p.bytes(c.W, k.schema)})
 			}
 		} else if sg.perPkt {
 			for _, p := range k.script {
-				steps = append(steps, Step{Name: p.sym, Send: p.bytes(c.W)})
+				steps = append(steps, Step{Name: p.sym, Send: p.bytes(c.W, k.schema)})
 			}
 		} else {
 			// the whole stream in one delivery: only the cuts decide what a read returns
 			var all []byte
 			for _, p := range k.script {
-				all = append(all, p.bytes(c.W)...)
+				all = append(all, p.bytes(c.W, k.schema)...)
 			}
 			steps = append(steps, Step{Name: "stream", Send: all})
 		}
@@ -396,7 +448,7 @@ func body03seg(k c03case, sg seg, prop string) Body {
 
 // C03 — results, telemetry and exceptions are delivered exactly once, in order.
 func C03(c *vk.Ctx) {
-	c.Rule("all server scripts of length <= n (quick 3, thorough 4) over the 15-symbol alphabet {Data header / 1 row / 3 rows / 3 other rows, empty end block, Totals, Progress, Profile, ProfileEvents 2 / 0 rows, Log 2 rows, TableColumns, Exception depth 1 / 3, EndOfStream} followed by EndOfStream, x {plain, LZ4} x {typed, Auto, no} result binding with every callback present, at the newest revision; plus all scripts of length <= 2 (thorough 3) x revisions on both sides of every packet-affecting threshold x callback sets {all, none, each alone, deprecated per-item}; plus scripts of length <= 2 x each callback failing. Every case is one execution of the real Connect + Do against the reference peer (default schedule); oracle = a reference interpreter of the specified receive loop. distinct_nontrivial = cases.")
+	c.Rule("all server scripts of length <= n (quick 3, thorough 4) over the 15-symbol alphabet {Data header / 1 row / 3 rows / 3 other rows, empty end block, Totals, Progress, Profile, ProfileEvents 2 / 0 rows, Log 2 rows, TableColumns, Exception depth 1 / 3, EndOfStream} followed by EndOfStream, x {plain, LZ4} x {typed, Auto, no} result binding x two block schemas ((UInt64, String) and (LowCardinality(String), Array(UInt64), Nullable(String))) with every callback present, at the newest revision; plus all scripts of length <= 2 (thorough 3) x revisions on both sides of every packet-affecting threshold x callback sets {all, none, each alone, deprecated per-item}; plus scripts of length <= 2 x each callback failing. Every case is one execution of the real Connect + Do against the reference peer (default schedule); oracle = a reference interpreter of the specified receive loop. distinct_nontrivial = cases.")
 	quick := c.Quick()
 	maxLen, maxLenRev := 3, 2
 	if !quick {
@@ -444,7 +496,9 @@ func C03(c *vk.Ctx) {
 	scripts(maxLen, func(s []pk) {
 		for _, lz4 := range []bool{false, true} {
 			for _, b := range []string{"typed", "auto", "none"} {
-				run(c03case{script: s, lz4: lz4, binding: b, rev: ServerRev, cb: cbSet{have: "RPFEL"}}, "script x compression x binding")
+				for schema := 0; schema < 2; schema++ {
+					run(c03case{script: s, lz4: lz4, binding: b, rev: ServerRev, cb: cbSet{have: "RPFEL"}, schema: schema}, "script x compression x binding x schema")
+				}
 			}
 		}
 	})
